@@ -28,7 +28,11 @@ static const char* DEFS =
   "w,c2,b,wlist,,,08,b509,0e20,v,,UCH,0=a;1=b,,\n"
   "r,c2,,flt,,,08,b509,0d21,f,,FLT,,,,e,,EXP,,,,p,,PIN,,,\n"
   "uw,c2,,bc,,,fe,b505,27,v,,D1C,,,\n"
-  "r,scan.08,,id,,,08,0704,,mf,,UCH,,,,idn,,STR:5,,,,sw,,PIN,,,,hw,,PIN,,,\n";
+  "r,scan.08,,id,,,08,0704,,mf,,UCH,,,,idn,,STR:5,,,,sw,,PIN,,,,hw,,PIN,,,\n"
+  "*[seen],c1,,temp,,,,\n"                                   // conditions resolved at load time refer to message objects
+  "*[auto],c2,,state,,st,,2\n"
+  "[seen]r,c1,,ctemp,,,08,b509,0d30,v,,UCH,,,\n"
+  "[auto]w,c2,,cset,,,08,b509,0e31,v,,UCH,,,\n";
 
 static std::string g_cfgDir;
 extern "C" int LLVMFuzzerInitialize(int* argc, char*** argv) {
@@ -80,8 +84,9 @@ extern "C" int LLVMFuzzerTestOneInput(const uint8_t* data, size_t size) {
       if (lc.find("def") != std::string::npos) hasDefine = true;
       bool http = line.compare(0, 4, "GET ") == 0 || line.compare(0, 5, "POST ") == 0 || line.compare(0, 4, "PUT ") == 0;
       vbus::g.now += 1000000000LL;
-      if (http) { std::string hu; RequestMode hm; memset(&hm, 0, sizeof(hm)); d.command(line, &hu, &hm, true); }
-      else d.command(line, &user, &mode);
+      static const bool verbose = getenv("VERIF_FUZZ_VERBOSE") != nullptr;
+      if (http) { std::string hu; RequestMode hm; memset(&hm, 0, sizeof(hm)); auto r = d.command(line, &hu, &hm, true); if (verbose) fprintf(stderr, "CMD %s -> %s\n", line.c_str(), vf::oneline(r.text).substr(0, 300).c_str()); }
+      else { auto r = d.command(line, &user, &mode); if (verbose) fprintf(stderr, "CMD %s -> %s\n", line.c_str(), vf::oneline(r.text).substr(0, 300).c_str()); }
     }
     // probe on a new connection
     std::string pu; RequestMode pm; memset(&pm, 0, sizeof(pm));
